@@ -11,7 +11,8 @@ WT=/tmp/wt-seedcheck-$P-$$
 LOG=$S/verify.log
 : > $LOG
 git -C /repo worktree add -q $WT HEAD >>$LOG 2>&1 || { echo "worktree failed"; exit 2; }
-trap 'git -C /repo worktree remove --force $WT >/dev/null 2>&1; rm -rf /verif/work/*-alt-* /verif/work/harness-* /verif/work/coq-* 2>/dev/null' EXIT
+H=$(python3 -c "import hashlib,sys;print(hashlib.sha256(sys.argv[1].encode()).hexdigest()[:8])" $WT)
+trap 'git -C /repo worktree remove --force $WT >/dev/null 2>&1; rm -rf /verif/work/*-alt-$H /verif/work/harness-$H /verif/work/coq-$H 2>/dev/null' EXIT
 # demo placement: header comment of demo_test.go names the package dir; allow override
 PKG=${3:-$(grep -m1 -oE '(pilot|pkg|security|tools|cni|istioctl|operator)/[A-Za-z0-9_./-]+' $S/demo_test.go | head -1)}
 PKG=${PKG%/}
